@@ -48,6 +48,8 @@ def run(tier, seed, ck=None):
                  (tag + '.symmetric', 'Equal(Q,P) = Equal(P,Q)', '(assert (not (= n%d %s)))' % (o['qe']['n'], spec)),
                  (tag + '.isidentity', 'IsIdentity(P) iff Z = 0', '(assert (not (= n%d (%s %s))))' % (o['isid']['n'], isz, Pc[2]))]
         ans = ck.prove_batch(pre, goals, timeout=60)
+        if al == 0 and ans[0] == 'sat':
+            algebraic_witness(ck, r, o['eq']['n'])
         # non-vacuity: both outcomes possible
         ck.prove(tag + '.reach1', 'Equal can be 1', pre + '\n(assert (= n%d (_ bv1 64)))' % o['eq']['n'], expect='sat', timeout=30)
         if al == 0:
@@ -73,6 +75,69 @@ def run(tier, seed, ck=None):
         else:
             ck.inconclusive.append('failed obligation did not reproduce: ' + out[-200:])
     return ck.finish() if own else None
+
+
+def algebraic_witness(ck, r, eqnode):
+    """the code's zero-test polynomials, specialised to P = kG and an unknown curve point Q, are solved over F_p"""
+    import itertools
+    from vf import algwit
+    from vf.dag import Eval
+    zt = [n for n in r.nodes if n['id'] in set(r.cone([eqnode])) and n['op'] == 'app' and n['n'] in ('fisz', 'feq')]
+    if not zt or len(zt) > 4:
+        return
+    def ecmul(k):
+        pt = None
+        add = lambda A, B: B if A is None else (A if B is None else _add(A, B))
+        def _add(A, B):
+            if A[0] == B[0] and (A[1] + B[1]) % P == 0:
+                return None
+            l = (3 * A[0] * A[0] * pow(2 * A[1], -1, P)) % P if A == B else ((B[1] - A[1]) * pow(B[0] - A[0], -1, P)) % P
+            x3 = (l * l - A[0] - B[0]) % P
+            return (x3, (l * (A[0] - x3) - A[1]) % P)
+        Q = (GX, GY)
+        while k:
+            if k & 1:
+                pt = add(pt, Q)
+            Q = _add(Q, Q)
+            k >>= 1
+        return pt
+    cases = []
+    for k in (1, 2, 3, 6, 7):
+        x1, y1 = ecmul(k)
+        env = {'px': algwit.const(x1), 'py': algwit.const(y1), 'pz': algwit.const(1), 'qx': algwit.SPoly([0, 1]), 'qy': algwit.SPoly([], [1]), 'qz': algwit.const(1)}
+        try:
+            polys = []
+            for n in zt:
+                A = [algwit.spoly_of(r, x, env) for x in n['a']]
+                polys.append(A[0] - A[1] if n['n'] == 'feq' else A[0])
+        except ValueError as e:
+            ck.notes.append('algebraic witness search not applicable: %s' % e)
+            return
+        for sigma in itertools.product([1, 0], repeat=len(zt)):
+            ev = Eval(r, {})
+            for n, sv in zip(zt, sigma):
+                ev.memo[n['id']] = sv
+            try:
+                says = ev.ev(eqnode)
+            except (KeyError, ValueError):
+                continue
+            if says != 1 or not any(sigma):
+                continue
+            sols = algwit.solve_on_curve([pl for pl, sv in zip(polys, sigma) if sv])
+            for (t, s_) in sols:
+                if (t, s_) == (x1, y1):
+                    continue
+                if any(((algwit.ueval(pl.a, t) + s_ * algwit.ueval(pl.b, t)) % P == 0) for pl, sv in zip(polys, sigma) if not sv):
+                    continue
+                cases.append({'kind': 'equal-points', 'a': '%064x%064x' % (x1, y1), 'b': '%064x%064x' % (t, s_)})
+        if len(cases) >= 3:
+            break
+    ck.notes.append('algebraic witness search: %d candidate pairs of distinct curve points on which the code\'s zero tests hold' % len(cases))
+    if cases:
+        path = ck.save_replay({'property': ck.pid, 'cases': cases[:6]})
+        ok, out = core.go_test(path)
+        if not ok and 'MISMATCH' in out:
+            ck.violation('equal', 'Equal returns 1 for two different group elements: %s' % [l.strip() for l in out.splitlines() if 'MISMATCH' in l][:1], path)
 
 
 def replay(path):
